@@ -525,7 +525,23 @@ def rule_r7(ctx) -> List[R.Inst]:
     fn = M.fn(PKG + ".read_event_packages")
     f2 = M.mods[fn.mod].rel
     outer = [n for n in fn.node.body if isinstance(n, ast.For)]
-    if len(outer) == 1 and unparse(outer[0].iter) == "lvl_pkg_counts" and \
+    from .c17 import _branch_paths
+    skipping = []
+    if len(outer) == 1:
+        # only the top-level statements of the per-level body matter: an early continue/break/return there skips the append
+        for cond, stmts, ex in _branch_paths([st for st in outer[0].body if not isinstance(st, (ast.For, ast.While))]):
+            n_app = sum(1 for st in stmts for x in ast.walk(st) if isinstance(x, ast.Call) and call_name(x) == "append" and
+                        unparse(x.func.value) == "lvls")
+            if n_app != 1:
+                skipping.append((cond, ex, n_app))
+    if len(outer) == 1 and skipping:
+        cond, ex, n_app = skipping[0]
+        ctxt = " and ".join(("" if pol else "not ") + f"({unparse(t)})" for t, pol in cond) or "always"
+        insts.append(R.viol(rid, "levels:split", f2, outer[0].lineno,
+                            f"on the path [{ctxt}] a difficulty contributes {n_app} package lists (exit: {ex}): the mapset then has "
+                            f"fewer than three charts and the later difficulties take the wrong slot (level name, index)",
+                            construct=f"level loop: {ctxt} -> {n_app} appends"))
+    elif len(outer) == 1 and unparse(outer[0].iter) == "lvl_pkg_counts" and \
             isinstance(outer[0].body[-1], ast.Expr) and unparse(outer[0].body[-1].value).startswith("lvls.append("):
         insts.append(R.ok(rid, "levels:split", f2, outer[0].lineno, idiom="one package list appended per level count"))
     else:
@@ -585,6 +601,37 @@ def rule_r8(ctx) -> List[R.Inst]:
     else:
         insts.append(R.viol(rid, "min_to_msec", M.mods[mm.mod].rel, mm.node.lineno, "min_to_msec must multiply by 60000",
                             construct=unparse(ret[0]) if ret else ""))
+    # (a2) the sweep's cursor (offset, measure, bpm) advances as one: every path that consumes a tempo event sets all three
+    from .c17 import _branch_paths
+    whiles = [n for n in ast.walk(fn.node) if isinstance(n, ast.While)]
+    if len(whiles) == 1:
+        bad = []
+        for cond, stmts, ex in _branch_paths(whiles[0].body):
+            assigned = set()
+            consumed = False
+            for st in stmts:
+                for x in ast.walk(st):
+                    if isinstance(x, ast.AugAssign) and isinstance(x.target, ast.Name):
+                        assigned.add(x.target.id)
+                        if x.target.id == "bpm_ix":
+                            consumed = True
+                    if isinstance(x, ast.Assign):
+                        for t in x.targets:
+                            for nm in ast.walk(t):
+                                if isinstance(nm, ast.Name):
+                                    assigned.add(nm.id)
+            if consumed and not {"offset", "measure", "bpm_val"} <= assigned:
+                bad.append((cond, sorted({"offset", "measure", "bpm_val"} - assigned)))
+        if bad:
+            cond, miss = bad[0]
+            ctxt = " and ".join(("" if pol else "not ") + f"({unparse(t)})" for t, pol in cond) or "always"
+            insts.append(R.viol(rid, "sweep-cursor", file, whiles[0].lineno,
+                                f"on the path [{ctxt}] a tempo event is consumed (time advanced) but {miss} stay(s) behind: the next "
+                                f"segment is integrated from the wrong position/tempo", construct=f"sweep path {ctxt}: {miss} not updated"))
+        else:
+            insts.append(R.ok(rid, "sweep-cursor", file, whiles[0].lineno, idiom="offset, measure and bpm are updated together on every consuming path"))
+    else:
+        insts.append(R.undec(rid, "sweep-cursor", file, fn.node.lineno, f"{len(whiles)} sweep loops found"))
     # (b) notes take offset = table[measure], length = table[tail_measure] - offset
     asg = {}
     for n in ast.walk(fn.node):
@@ -634,7 +681,7 @@ SPECS = [
     RuleSpec("C07.R5", rule_r5, 4, "A7", "position = measure + slot / slots in both event readers"),
     RuleSpec("C07.R6", rule_r6, 1, "A8", "no ordering comparison of a None-able cursor under its own falsiness"),
     RuleSpec("C07.R7", rule_r7, 3, "A8", "one chart per difficulty, from its own packages and the header tempo"),
-    RuleSpec("C07.R8", rule_r8, 7, "A7", "times come from the measure table; integration steps 4 * d(measure) / bpm; header tempo first"),
+    RuleSpec("C07.R8", rule_r8, 8, "A7", "times come from the measure table; integration steps 4 * d(measure) / bpm; header tempo first"),
 ]
 
 META = dict(
